@@ -51,7 +51,7 @@ def failstop_oracle(ctx, r, scen):
                 return
 
 
-def run_part(ctx):
+def run_part(ctx, scale=1.0):
     from checks import c05
     cur = "current code"
     if ctx.quick:
@@ -81,7 +81,7 @@ def run_part(ctx):
         {"producers": [[[300, False], [300, False], [300, True]]], "maxops": 250, "maxbytes": 500, "window": 0.0},
         {"producers": [[[300, True], [300, True]], [["empty", True]]], "maxops": 250, "maxbytes": 1000, "window": 0.05},
     ]
-    budget = 60 if ctx.quick else 1500
+    budget = int((60 if ctx.quick else 1500) * scale)
     for base in fam:
         for fail_at in (1, 2, 3):
             plan = dict(base, fail_at=fail_at)
@@ -92,7 +92,7 @@ def run_part(ctx):
             for r, _st in explore(lambda s, p=plan: run_batcher(p, s), max_preempt=2, max_runs=budget // 2):
                 record(r, {"kind": "batcher", "plan": plan, "choices": r["choices"], "mode": "dfs"})
     # (b) random plans, always with a failure
-    for k in range(100 if ctx.quick else 3000):
+    for k in range(int((100 if ctx.quick else 3000) * scale)):
         plan = random_plan(rng)
         plan["fail_at"] = rng.choice([1, 1, 2, 3])
         seed = rng.randrange(1 << 30)
